@@ -73,6 +73,9 @@ func next(kind string) Event {
 		if e.Kind == "sched" && kind != "sched" {
 			continue // scheduling decisions are consumed by the turnstile only
 		}
+		if e.Kind == "choose" && e.Name != "" {
+			continue // engine-internal choices (which ready case a select took, ...): not enforceable natively
+		}
 		if e.Kind != kind {
 			panic(fmt.Sprintf("verifrt: replay divergence: want %s, next event is %s %q", kind, e.Kind, e.Name))
 		}
